@@ -2,6 +2,7 @@
 construction, state extraction, environment tables for the Lean model, reference functions."""
 import datetime
 import decimal
+import json
 import sys
 import unicodedata
 
@@ -85,28 +86,68 @@ def nd_table():
 # ----------------------------------------------------------------------------------------
 # schemas (JSON form shared with the Lean runner)
 
+def _derive_from_used(s):
+    """Deterministic per schema node: build this node's class by DERIVING it from a parent class that has
+    already been used (instantiated, set, set_flat) under another name / field list — what applications
+    do all the time, and the only way state memoised on a class can leak into a derived class."""
+    import hashlib
+    h = hashlib.sha1(json.dumps(s, sort_keys=True, default=str).encode()).digest()[0]
+    return h % 3 == 0
+
+
+def _use(cls, value=None, pairs=None):
+    """Exercise a (parent) class a little; whatever it does with the input is irrelevant here."""
+    try:
+        el = cls()
+        if value is not None:
+            el.set(value)
+        if pairs is not None:
+            cls().set_flat(pairs)
+        el.flatten()
+    except Exception:
+        pass
+
+
 def build_class(s, kinds):
     """Real flatland class for a schema JSON."""
     import flatland
     t = s["t"]
+    used = _derive_from_used(s)
     if t == "leaf":
         cls = kind_class(kinds[s["k"]])
+        if used:
+            cls = cls.named("zzparent")
+            _use(cls, "x")
     elif t == "joined":
         cls = kind_class(kinds[s["k"]])
+        if used:
+            cls = cls.named("zzparent")
+            _use(cls, "x,y")
     elif t == "compound":
         cls = flatland.DateYYYYMMDD
     elif t == "dict":
         base = {"dense": flatland.Dict, "sparse": flatland.SparseDict,
                 "sparseReq": flatland.SparseDict.using(minimum_fields="required")}[s["mode"]]
-        cls = base.of(*[build_class(f, kinds) for f in s["fields"]])
+        fields = [build_class(f, kinds) for f in s["fields"]]
+        if used:
+            # a parent mapping with another field list, used before the real one is derived from it
+            base = base.of(flatland.String.named("zzf"), *fields[:1]).named("zzparent")
+            _use(base, {"zzf": "x"}, [("zzparent_zzf", "y")])
+        cls = base.of(*fields)
         if "policy" in s:
             cls = cls.using(policy={"strict": "strict", "subset": "subset", "duck": "duck", "off": None}[s["policy"]])
     elif t == "list":
         cls = flatland.List.of(build_class(s["member"], kinds)).using(
             prune_empty=s["prune"], maximum_set_flat_members=s["max"])
+        if used:
+            cls = cls.named("zzparent")
+            _use(cls, None, [("zzparent_0", "x"), ("zzparent_1_zz", "y")])
     elif t == "array":
         base = flatland.MultiValue if s.get("multi") else flatland.Array
         cls = base.of(build_class(s["member"], kinds)).using(prune_empty=s["prune"])
+        if used:
+            cls = cls.named("zzparent")
+            _use(cls, ["x"], [("zzparent", "y")])
     else:
         raise ValueError(t)
     cls = cls.named(s["name"])
